@@ -3,6 +3,7 @@ call, stored calls, unstored calls, literals), generators, TLA+ rendering, and c
 real Plan / Registry over harness stores whose values are *terms* (nested dicts) so that
 Caching.tla can compare them with from-scratch evaluation."""
 import itertools
+import os
 import random
 import threading
 
@@ -338,6 +339,11 @@ class Universe:
         self.registry = uberjob.Registry()
         self.node = {}
         self.store = {}
+        # file mode: some stores are the library's own file stores in a scratch directory, every instant is a real
+        # one (file modified times / time.time()), writes are spaced so that instants are pairwise distinct
+        self.files = scn.get("files")   # None | {"root": dir, "backing": [None|"json"|"pickle"|"text" per node], "gap": seconds}
+        self.real = {}                  # node -> the bundled file store that holds its value
+        self.tsf = {}                   # rank -> timestamp (float seconds) of the write that made that rank
         self._build()
 
     # ---- logging -------------------------------------------------------------------
@@ -345,8 +351,70 @@ class Universe:
         kw["e"] = e
         self.events.append(kw)
 
-    def time_of(self, rank):
-        return self.epoch + self.dt.timedelta(seconds=rank)
+    # ---- file mode ---------------------------------------------------------------------
+    def _make_real(self, n):
+        f = self.files
+        if not f:
+            return
+        kind = f["backing"][n - 1]
+        if not kind:
+            return
+        import pathlib
+
+        from uberjob import stores as S
+
+        cls = {"json": S.JsonFileStore, "pickle": S.PickleFileStore, "text": S.TextFileStore}[kind]
+        path = os.path.join(f["root"], f"s{n}.{kind}")
+        self.real[n] = (kind, cls(pathlib.Path(path) if n % 2 else path), path)
+
+    def _materialise(self, n):
+        """(lock held, bookkeeping done) perform the write `rank[n] = clock` for real and note its instant."""
+        f = self.files
+        if not f:
+            return
+        import json
+        import time
+
+        gap = f.get("gap", 0.003)
+        time.sleep(gap)
+        r = self.real.get(n)
+        if r is not None:
+            kind, st, path = r
+            v = self.value[n]
+            st.write(json.dumps(v) if kind == "text" else v)
+            t = os.path.getmtime(path)
+        else:
+            t = time.time()
+        self.tsf[self.clock] = t
+        time.sleep(gap)
+
+    def _real_read(self, n):
+        import json
+
+        kind, st, _path = self.real[n]
+        v = st.read()
+        return json.loads(v) if kind == "text" else v
+
+    def time_of(self, rank, n=None):
+        """The datetime a store (n) or the caller (fresh_time, n=None) uses for the instant `rank`. With `tzmix`
+        the same instants are written as naive local time of the process zone, as aware UTC or as aware
+        datetimes with some other offset, chosen per store: staleness may depend on the instants only."""
+        mix = getattr(self, "tzmix", None)
+        if not mix and not self.files:
+            return self.epoch + self.dt.timedelta(seconds=rank)
+        dt = self.dt
+        if self.files:
+            ts = self.tsf[rank]  # the real instant of that write
+        else:
+            ts = 947894400 + rank  # 2000-01-15T00:00:00Z + rank seconds
+        if not mix:
+            return dt.datetime.fromtimestamp(ts)
+        kind = mix["fresh"] if n is None else mix["kinds"][(n - 1) % len(mix["kinds"])]
+        if kind == "naive":
+            return dt.datetime.fromtimestamp(ts)
+        if kind == "utc":
+            return dt.datetime.fromtimestamp(ts, dt.timezone.utc)
+        return dt.datetime.fromtimestamp(ts, dt.timezone(dt.timedelta(minutes=mix["off"])))
 
     # ---- fault plumbing (caller holds self.lock) ---------------------------------------
     def _op(self):
@@ -460,7 +528,7 @@ class Universe:
                     if not U.present.get(n):
                         U.log("readfail", n=n, missing=True)
                         raise FileNotFoundError(f"store {n} is empty")
-                    v = U.value[n]
+                    v = U._real_read(n) if n in U.real else U.value[n]
                     if s.get("norm"):
                         v = norm_term(v)
                     U.log("read", n=n, v=enc(v))
@@ -483,6 +551,7 @@ class Universe:
                     U.present[n] = True
                     U.value[n] = value
                     U.rank[n] = U.clock
+                    U._materialise(n)
                     U.log("write", n=n, v=value if _is_term(value) else T(-2, 0, []), r=U.clock)
                     if f:
                         U._trip(f, ("write", n))
@@ -502,7 +571,10 @@ class Universe:
                     U.log("mtime", n=n, r=r)
                     if f:
                         U._trip(f)
-                    return U.time_of(r) if r else None
+                    if n in U.real:
+                        # whatever the library's own store reports: the decisions uberjob takes on it are what is checked
+                        return U.real[n][1].get_modified_time()
+                    return U.time_of(r, n) if r else None
 
             def __repr__(self):
                 return f"TermStore({self.n})"
@@ -548,6 +620,7 @@ class Universe:
                         U.present[sd] = True
                         U.value[sd] = sv
                         U.rank[sd] = U.clock
+                        U._materialise(sd)
                     U.log("end", n=c, v=v, sv=sv)
                     if fl:
                         U._trip(fl, ("call", c))
@@ -569,6 +642,7 @@ class Universe:
               elif r == "src":
                   st = TermStore(i)
                   self.store[i] = st
+                  self._make_real(i)
                   node = self.registry.source(self.plan, st)
                   if not s["wof"][i - 1]:
                       self.clock += 1
@@ -576,6 +650,7 @@ class Universe:
                       self.srcver[i] = 1
                       self.value[i] = T(i, 1, [])
                       self.rank[i] = self.clock
+                      self._materialise(i)
               else:
                   a = [self.node[p] for p in s["args"][i - 1]]
                   nkw = (s.get("nkw") or [0] * self.N)[i - 1]
@@ -584,6 +659,7 @@ class Universe:
                   if r == "stored":
                       st = TermStore(i)
                       self.store[i] = st
+                      self._make_real(i)
                       if s.get("reg_seed"):
                           deferred.append((node, st))  # registered later, in another order than creation
                       else:
@@ -604,6 +680,7 @@ class Universe:
             self.present[n] = True
             self.value[n] = T(n, self.srcver[n], [])
             self.rank[n] = self.clock
+            self._materialise(n)
             self.log("upd", n=n)
 
     def delete(self, n):
@@ -611,6 +688,11 @@ class Universe:
             self.present[n] = False
             self.value.pop(n, None)
             self.rank[n] = 0
+            if n in self.real:
+                try:
+                    os.remove(self.real[n][2])
+                except FileNotFoundError:
+                    pass
             self.log("del", n=n)
 
     def can_delete(self, n):
